@@ -3,6 +3,7 @@ package ante
 import (
 	"cosmossdk.io/math"
 	sdk "github.com/cosmos/cosmos-sdk/types"
+	"github.com/cosmos/cosmos-sdk/x/authz"
 	stakingtypes "github.com/cosmos/cosmos-sdk/x/staking/types"
 )
 
@@ -17,22 +18,39 @@ type AnteDecoratorStakingCommission struct{}
 func (a AnteDecoratorStakingCommission) AnteHandle(
 	ctx sdk.Context, tx sdk.Tx, simulate bool, next sdk.AnteHandler,
 ) (newCtx sdk.Context, err error) {
-	for _, msg := range tx.GetMsgs() {
+	if err := checkMaxCommission(tx.GetMsgs()); err != nil {
+		return ctx, err
+	}
+	return next(ctx, tx, simulate)
+}
+
+// checkMaxCommission enforces the commission cap on create/edit validator
+// messages, including those wrapped in authz "MsgExec" at any nesting depth:
+// authz executes inner messages without running the ante handler on them.
+func checkMaxCommission(msgs []sdk.Msg) error {
+	for _, msg := range msgs {
 		switch msg := msg.(type) {
 		case *stakingtypes.MsgCreateValidator:
 			rate := msg.Commission.Rate
 			if rate.GT(MAX_COMMISSION()) {
-				return ctx, NewErrMaxValidatorCommission(rate)
+				return NewErrMaxValidatorCommission(rate)
 			}
 		case *stakingtypes.MsgEditValidator:
 			rate := msg.CommissionRate
 			if rate != nil && msg.CommissionRate.GT(MAX_COMMISSION()) {
-				return ctx, NewErrMaxValidatorCommission(*rate)
+				return NewErrMaxValidatorCommission(*rate)
+			}
+		case *authz.MsgExec:
+			inner, err := msg.GetMessages()
+			if err != nil {
+				return err
+			}
+			if err := checkMaxCommission(inner); err != nil {
+				return err
 			}
 		default:
 			continue
 		}
 	}
-
-	return next(ctx, tx, simulate)
+	return nil
 }
